@@ -246,6 +246,15 @@ def analyse(sc, res):
                         if len(ops_of) > 1:
                             bad.append(("parallel-not-at-once", f"parallel {a['id']} opened its groups over several client rounds {sorted(ops_of)}"))
 
+    # no client sends an error in these histories: a task that failed was failed by the engine (a generator that cannot read its list, a hook that
+    # cannot be dispatched)
+    failed = [(t["nid"], (t.get("err") or {}).get("message", "")[:120]) for t in tasks.values() if t["state"] == "error"]
+    if failed and not bad:
+        gens = {a["id"]: a for s_ in w["steps"] for a in s_["acts"] if a["uses"] in (PAR, SEQ)}
+        nid, msg = failed[0]
+        kind = gens[nid]["uses"].split(".")[-1] if nid in gens else "task"
+        bad.append((f"engine-failed-a-task|{kind}", f"{nid} ended in error without any error action: {msg}"))
+
     # ---- hooks
     def nearest_step(tid):
         cur = tasks.get(tid)
